@@ -8,4 +8,12 @@ GROUPS = [
  dict(_F, name='dec_int24', entry='h_dec_int24', functions=['RES2INT24', 'float2int', 'RES2FLOAT'],
       what='every float |x|<256: RES2INT24(x) == round(2^23 x)'),
 ]
+_W = dict(cls='P', tu='C13_enc_wrappers.c', replace=['opus_encode_native'], defines=['-U__SSE__'], canary='real', unwind=2, timeout=1200,
+          cbmc_flags=['--object-bits', '10', '--no-array-field-sensitivity'],
+          trusted=['recording contract in place of opus_encode_native: it only captures its arguments and sample K'])
+GROUPS += [
+ dict(_W, name='wrap_opus_encode', entry='h_opus_encode', expect_canaries=2, functions=['opus_encode', 'frame_size_select'], what='opus_encode: every sample reaches the native encoder as INT16TORES(pcm[K]) (loop contract, any frame size), depth 16, analysis on the caller samples'),
+ dict(_W, name='wrap_opus_encode24', entry='h_opus_encode24', expect_canaries=2, functions=['opus_encode24', 'frame_size_select'], what='opus_encode24: every sample reaches the native encoder as INT24TORES(pcm[K])'),
+ dict(_W, name='wrap_opus_encode_float', entry='h_opus_encode_float', functions=['opus_encode_float', 'frame_size_select'], what='opus_encode_float: samples passed through unchanged'),
+]
 META = {'cex': {'self': True, 'timeout': 600}}
